@@ -84,6 +84,12 @@ static int server_written(unsigned char *out, const unsigned char *payload, int 
 #define NPRE 10
 static const struct { int ch; int len; const char *d; } PRE[NPRE] = { { '9', 64, "64 x '9'" }, { '9', 700, "700 x '9'" }, { 'A', 64, "64 x 'A'" }, { 0xff, 64, "64 x 0xff" }, { 0xff, 700, "700 x 0xff" },
 	{ '-', 64, "64 x '-'" }, { 0, 64, "64 zero bytes" }, { 'a', 300, "300 x 'a'" }, { '0', 40, "40 x '0'" }, { 0x80, 200, "200 x 0x80" } };
+/* fragment trains: from one answer on, N consecutive answers are replaced by hostile data fragments of one downstream
+ * packet (same sequence number, fragment 0,1,2.., never flagged last), each carrying the largest body the record type
+ * can hold.  One train = one deviation (like the burst outages of C02). */
+#define NTRAIN 6
+static const struct { int n, body; } TRAIN[NTRAIN] = { { 2, 33000 }, { 3, 22000 }, { 2, 4094 }, { 16, 4094 }, { 17, 4094 }, { 4, 16000 } };
+static int train_left, train_seq, train_frag, train_body;
 static uint64_t *REFHASH;          /* shared: final-state hash of the honest run, per job */
 static int prefill_kind = -1;
 
@@ -293,6 +299,19 @@ static void deliver_to_client(const unsigned char *data, int len)
 	vw_deliver_now(c, ns_cli_sock[1]);
 }
 
+static void deliver_to_client(const unsigned char *data, int len);
+static void train_step(int d)
+{
+	static unsigned char pl[34000], out[70000];
+	char de = s_w_users()[0].downenc ? s_w_users()[0].downenc : 'T';
+	pl[0] = 0x80; pl[1] = (train_seq << 5) | ((train_frag & 15) << 1);
+	for (int k = 2; k < 2 + train_body; k++) pl[k] = (unsigned char)(k * 131 + train_frag);
+	int n = server_written(out, pl, 2 + train_body, de);
+	train_left--; train_frag++;
+	vw_dgram_free(d);
+	if (n > 0) deliver_to_client(out, n);
+}
+
 static void on_callback(int slot, int b)
 {
 	(void)b;
@@ -301,17 +320,26 @@ static void on_callback(int slot, int b)
 	vw_dgram *g = &W.dg[d];
 	if (!vw_addr_eq(&g->dst, &ns_cli_addr[1])) { vw_dgram_free(d); return; }
 	answer_no++;
+	if (in_child && train_left > 0 && !(g->len >= 3 && g->data[0] == 0x10 && g->data[1] == 0xd1 && g->data[2] == 0x9e)) { train_step(d); return; }
 	if (!in_child) xp_count(K_BASE_ANSWERS, cur_part == 0);
 	if (!in_child && !xp_expired()) {
 		int israw = g->len >= 3 && g->data[0] == 0x10 && g->data[1] == 0xd1 && g->data[2] == 0x9e;
 		char de = s_w_users()[0].downenc ? s_w_users()[0].downenc : 'T';
 		if (israw) raw_menu(g->data, g->len); else build_menu(g->data, g->len, de);
-		for (int i = cur_part; i < nmenu + (israw ? 0 : NPRE); i += NPART) {
+		for (int i = cur_part; i < nmenu + (israw ? 0 : NPRE + NTRAIN); i += NPART) {
 			if (xp_fork_wait() != 0) continue;
 			/* child */
 			in_child = 1;
 			XC.path[0].cp = answer_no; XC.path[0].alt = i; XC.npath = 1;
 			alarm(60);
+			if (i >= nmenu + NPRE) {
+				int t = i - nmenu - NPRE;
+				train_left = TRAIN[t].n; train_body = TRAIN[t].body; train_frag = 0; train_seq = (ca_w_inpkt()->seqno + 1) & 7;
+				snprintf(cur_desc, sizeof cur_desc, "%s, from answer #%d on, %d consecutive answers are replaced by fragments 0..%d of one downstream packet (seq %d), %d body bytes each", CELLS[cur_cell].name, answer_no, TRAIN[t].n, TRAIN[t].n - 1, train_seq, TRAIN[t].body);
+				xp_count(K_SUBST, 1);
+				train_step(d);
+				return;
+			}
 			if (i >= nmenu) {
 				/* prefill: an unmatched answer with a long payload first, then the honest answer */
 				static unsigned char pl[1000], out[70000];
@@ -353,8 +381,16 @@ static void on_callback(int slot, int b)
 		char de = s_w_users()[0].downenc ? s_w_users()[0].downenc : 'T';
 		if (israw) raw_menu(g->data, g->len); else build_menu(g->data, g->len, de);
 		int i = XC.path[0].alt;
-		if (i >= nmenu + NPRE) { dprintf(1, "HARNESS-ERROR replay menu item out of range\n"); _exit(2); }
+		if (i >= nmenu + NPRE + NTRAIN) { dprintf(1, "HARNESS-ERROR replay menu item out of range\n"); _exit(2); }
 		in_child = 1;
+		if (i >= nmenu + NPRE) {
+			int t = i - nmenu - NPRE;
+			train_left = TRAIN[t].n; train_body = TRAIN[t].body; train_frag = 0; train_seq = (ca_w_inpkt()->seqno + 1) & 7;
+			snprintf(cur_desc, sizeof cur_desc, "%s, from answer #%d on, %d consecutive answers are replaced by fragments 0..%d of one downstream packet (seq %d), %d body bytes each", CELLS[cur_cell].name, answer_no, TRAIN[t].n, TRAIN[t].n - 1, train_seq, TRAIN[t].body);
+			printf("replay: %s\n", cur_desc);
+			train_step(d);
+			return;
+		}
 		if (i >= nmenu) {
 			static unsigned char pl[1000], out[70000];
 			int k = i - nmenu;
@@ -399,7 +435,7 @@ static void job(int j)
 	const ccell *c = &CELLS[cur_cell];
 	ns_cfg cfg; ns_defaults(&cfg);
 	cfg.qtype = c->qtype; cfg.downenc = c->downenc; cfg.lazy = c->lazy; cfg.raw = c->raw; cfg.fragsize = c->fragsize;
-	in_child = 0; answer_no = 0; cur_desc[0] = 0; memset(HELD, 0, sizeof HELD); tunw_count = 0; prefill_kind = -1;
+	in_child = 0; answer_no = 0; cur_desc[0] = 0; memset(HELD, 0, sizeof HELD); tunw_count = 0; prefill_kind = -1; train_left = 0;
 	int is_reference = 0;
 	if (!XC.replay) {
 		/* reference: the honest run without any choice point, in a child; its final state goes to shared memory */
